@@ -79,6 +79,7 @@ type G struct {
 	name    string
 	tag     string
 	sleeps  int
+	low     bool // low priority: ordered after every ordinary goroutine (GoLow)
 }
 
 // PointRec records one scheduling decision.
@@ -325,6 +326,20 @@ func Go(f func()) {
 	g.tag = parent.tag
 }
 
+// GoLow starts f as a controlled goroutine of low priority: in the canonical order of alternatives it comes after
+// every ordinary goroutine, so the default schedule runs it only when nothing else can run, and running its next
+// step at any other point is one departure from the default. Meant for fault and interrupt actors.
+func GoLow(f func()) {
+	e, parent := me()
+	if e == nil {
+		go f()
+		return
+	}
+	g := e.spawn("", f)
+	g.tag = parent.tag
+	g.low = true
+}
+
 // ---------------------------------------------------------------------------
 // The scheduling decision
 
@@ -494,7 +509,14 @@ func (e *Exec) pickLocked(self *G) *G {
 		curEn = len(alts)
 	}
 	for _, g := range e.gs {
-		if g != self {
+		if g != self && !g.low {
+			alts = append(alts, e.altsOf(g)...)
+		}
+	}
+	// Low-priority goroutines (fault / interrupt actors started with GoLow) come last: by default they
+	// run only when nothing else can, so placing their step at any given point costs exactly one deviation.
+	for _, g := range e.gs {
+		if g != self && g.low {
 			alts = append(alts, e.altsOf(g)...)
 		}
 	}
